@@ -397,6 +397,51 @@ fn main() {{
             ),
         ),
         (
+            "field! with a dotted path through a Gc field".into(),
+            body(
+                "#[derive(Collect)]\n#[collect(no_drop)]\nstruct N<'gc> { f: RefLock<Option<C<'gc>>> }\n#[derive(Collect)]\n#[collect(no_drop)]\nstruct O<'gc> { inner: Gc<'gc, N<'gc>> }\n#[derive(Collect)]\n#[collect(no_drop)]\nstruct Root<'gc> { outer: Gc<'gc, O<'gc>> }",
+                "Root { outer: Gc::new(mc, O { inner: Gc::new(mc, N { f: RefLock::new(None) }) }) }",
+                "let w = Gc::write(mc, root.outer); *field!(w, O, inner.f).unlock().borrow_mut() = Some(child);",
+                "root.outer.inner.f.borrow().is_some()",
+            ),
+        ),
+        (
+            "unlock! with a dotted path through a Gc field".into(),
+            body(
+                "#[derive(Collect)]\n#[collect(no_drop)]\nstruct N<'gc> { f: RefLock<Option<C<'gc>>> }\n#[derive(Collect)]\n#[collect(no_drop)]\nstruct O<'gc> { inner: Gc<'gc, N<'gc>> }\n#[derive(Collect)]\n#[collect(no_drop)]\nstruct Root<'gc> { outer: Gc<'gc, O<'gc>> }",
+                "Root { outer: Gc::new(mc, O { inner: Gc::new(mc, N { f: RefLock::new(None) }) }) }",
+                "let w = Gc::write(mc, root.outer); *unlock!(w, O, inner.f).borrow_mut() = Some(child);",
+                "root.outer.inner.f.borrow().is_some()",
+            ),
+        ),
+        (
+            "field! with a dotted path through a shared Rc".into(),
+            body(
+                "#[derive(Collect)]\n#[collect(no_drop)]\nstruct N<'gc> { f: RefLock<Option<C<'gc>>> }\n#[derive(Collect)]\n#[collect(no_drop)]\nstruct O<'gc> { inner: Rc<N<'gc>> }\n#[derive(Collect)]\n#[collect(no_drop)]\nstruct Root<'gc> { a: Gc<'gc, O<'gc>> }",
+                "Root { a: Gc::new(mc, O { inner: Rc::new(N { f: RefLock::new(None) }) }) }",
+                "let temp = Gc::new(mc, O { inner: root.a.inner.clone() }); let w = Gc::write(mc, temp); *field!(w, O, inner.f).unlock().borrow_mut() = Some(child);",
+                "root.a.inner.f.borrow().is_some()",
+            ),
+        ),
+        (
+            "field! with an index expression into a Vec of Gc".into(),
+            body(
+                "#[derive(Collect)]\n#[collect(no_drop)]\nstruct N<'gc> { f: RefLock<Option<C<'gc>>> }\n#[derive(Collect)]\n#[collect(no_drop)]\nstruct O<'gc> { v: Vec<Gc<'gc, N<'gc>>> }\n#[derive(Collect)]\n#[collect(no_drop)]\nstruct Root<'gc> { outer: Gc<'gc, O<'gc>> }",
+                "Root { outer: Gc::new(mc, O { v: vec![Gc::new(mc, N { f: RefLock::new(None) })] }) }",
+                "let w = Gc::write(mc, root.outer); *field!(w, O, v[0].f).unlock().borrow_mut() = Some(child);",
+                "root.outer.v[0].f.borrow().is_some()",
+            ),
+        ),
+        (
+            "field! on a dereferenced Write".into(),
+            body(
+                "#[derive(Collect)]\n#[collect(no_drop)]\nstruct N<'gc> { f: RefLock<Option<C<'gc>>> }\n#[derive(Collect)]\n#[collect(no_drop)]\nstruct Root<'gc> { outer: Gc<'gc, Gc<'gc, N<'gc>>> }",
+                "Root { outer: Gc::new(mc, Gc::new(mc, N { f: RefLock::new(None) })) }",
+                "let w = Gc::write(mc, root.outer); let inner: &N = &**w; *field!(Write::from_static(inner), N, f).unlock().borrow_mut() = Some(child);",
+                "root.outer.f.borrow().is_some()",
+            ),
+        ),
+        (
             "Lock::take needs no barrier and adopts nothing".into(),
             body(
                 "#[derive(Collect)]\n#[collect(no_drop)]\nstruct Root<'gc> { c: Gc<'gc, Lock<Option<C<'gc>>>> }",
